@@ -617,6 +617,44 @@ impl C09 {
                 ),
             ));
         }
+        // the same check on small serial multisets drawn from a narrow window
+        // (duplicates, gaps and their combinations are likely there)
+        for _ in 0..8 {
+            let (list, lim) = {
+                let mut t = ctx.tape.lock().unwrap();
+                let base = match t.choose(3) { 0 => 0u64, 1 => u64::MAX - 6, _ => t.choose(1_000_000) };
+                let len = t.choose(7) as usize;
+                let list: Vec<u64> = (0..len).map(|_| base + t.choose(7)).collect();
+                let lim = if t.chance(1, 2) { None } else { Some(t.choose(len as u64 + 2) as usize) };
+                (list, lim)
+            };
+            let hash = n.snapshot().hash();
+            let uri = n.snapshot().uri().clone();
+            let mut nf = NotificationFile::new(
+                n.session_id(), n.serial(), UriAndHash::new(uri.clone(), hash),
+                list.iter().map(|s| DeltaInfo::new(*s, uri.clone(), hash)).collect(),
+            );
+            let mut sorted = list.clone();
+            sorted.sort();
+            if let Some(l) = lim {
+                if l < sorted.len() {
+                    sorted.drain(..sorted.len() - l);
+                }
+            }
+            let want = sorted.windows(2).all(|w| w[0].checked_add(1) == Some(w[1]));
+            let got = guarded("sort_and_verify_deltas", || Ok(nf.sort_and_verify_deltas(lim)))?;
+            let retained: Vec<u64> = nf.deltas().iter().map(|d| d.serial()).collect();
+            if got != want || (!list.is_empty() && retained != sorted) {
+                return Err(Violation::new(
+                    "delta-chain-check",
+                    "",
+                    format!(
+                        "sort_and_verify_deltas({:?}) on serials {:?}: returned {}, retained {:?}; consecutive-by-definition: {} over {:?}",
+                        lim, list, got, retained, want, sorted
+                    ),
+                ));
+            }
+        }
         // has_matching_origins <=> all authorities equal the base's
         let base = match ctx.choose(3) {
             0 => n.snapshot().uri().clone(),
